@@ -438,18 +438,19 @@ def expand(F, fn, toks=None, stack=(), prov=()):
     """`toks` (default: the body of `fn`) with every call of an interesting same-file function replaced by
     `{ its body }`, parameters substituted by the argument expressions, `self` by the receiver"""
     toks = fn.body if toks is None else toks
-    out, i = [], 0
+    out, i, at = [], 0, {}
     while i < len(toks):
         t = toks[i]
+        at[i] = len(out)          # where the output stood when source token i was reached
         c = F.callee(toks, i, fn) if t.k == "id" and t.s in F.by_name else None
         if c is not None and id(c[0]) in F.interesting and c[0].qual not in stack and len(stack) < 6:
             g, s, lp, recv = c
             rp = match_fwd(toks, lp)
             args = [expand(F, fn, a, stack, prov) for a in split_top(toks[lp + 1:rp], ",", angles=False)]
-            # drop what was already emitted of the call expression (receiver / path qualifier)
-            drop = i - s
-            if drop:
-                del out[len(out) - drop:]
+            # drop what was already emitted of the call expression (receiver / path qualifier; the receiver may itself
+            # contain a call that was expanded: it is expanded again below, as the receiver)
+            if s < i:
+                del out[at.get(s, len(out)):]
             if recv is None and g.has_self and args:
                 recv, args = args[0], args[1:]
             elif recv is not None:
@@ -1436,7 +1437,7 @@ def analyse(repo=None):
         "dropExpect": wait_val(D),
     }
     return {"F": F, "paths": paths, "sites": sites, "loops": loops, "derived": derived, "notes": notes, "clone_asm": asm_syscalls(raw),
-            "unfinished": F.value_of("UNFINISHED"), "wait_private": wait_key_private(repo)}
+            "unfinished": init_val, "wait_private": wait_key_private(repo)}
 
 
 def lean_str(s):
@@ -1486,6 +1487,7 @@ def emit(table, resolved=None, path=None):
     lines.append("]")
     lines.append("")
     lines.append("def cloneAsmSyscalls : List Nat := [%s]" % ", ".join(str(x) for x in table["clone_asm"] if x >= 0))
+    lines.append("/-- the value `Tsm::init` writes into the exit futex word (named constants resolved) -/")
     lines.append("def unfinished : Option Nat := %s" % ("none" if table["unfinished"] is None else "some %d" % table["unfinished"]))
     lines.append("/- `xStatic = true`: x was decided from the path lists above (Props/C05 `gen_params_from_paths` re-derives it);")
     lines.append("   `false`: the source was not understood there, x is what the running code was observed to do (checks/c05.py) -/")
